@@ -110,6 +110,19 @@ func soModule(p stackParams) (text string, sn, rn []string, err error) {
 	return bm.Shared_objects[0].Write_verilog(bm, 0, "bmstack", "iverilog"), sn, rn, nil
 }
 
+// storageShape compares the storage of the generated module with its parameters (BMStack: mem is a
+// function from Depth slots to DataSize-bit words); "" when it is Depth words of DataSize bits.
+func (ss *stackSim) storageShape() string {
+	depth, isMem := ss.sim.IsMem("memory")
+	if !isMem {
+		return "the module has no memory array `memory`"
+	}
+	if w := ss.sim.Width("memory"); depth != ss.p.Depth || w != ss.p.DataSize {
+		return fmt.Sprintf("`memory` is %d words of %d bits, the parameters demand %d words of %d bits", depth, w, ss.p.Depth, ss.p.DataSize)
+	}
+	return ""
+}
+
 func newStackSim(p stackParams) (*stackSim, error) {
 	if p.ViaSO {
 		text, sn, rn, err := soModule(p)
@@ -454,6 +467,10 @@ func runC13(r *evid.Run) {
 			r.Inconclusive("real module %v: %v", in.p, err)
 			return
 		}
+		if shape := ss.storageShape(); shape != "" {
+			r.Violate("storage-shape", fmt.Sprintf("%v: %s", in.p, shape), map[string]interface{}{"params": in.p})
+			continue
+		}
 		bound := 0
 		if in.prompt {
 			bound = responseBound(in.p)
@@ -550,6 +567,10 @@ func runC13(r *evid.Run) {
 		if err := ss.reset(); err != nil {
 			r.Inconclusive("reset: %v", err)
 			return
+		}
+		if shape := ss.storageShape(); shape != "" {
+			r.Violate("storage-shape", fmt.Sprintf("%v: %s", p, shape), map[string]interface{}{"params": p})
+			continue
 		}
 		prompt := rng.Intn(2) == 0
 		bound := 0
